@@ -9,6 +9,7 @@ import (
 // GraphOpts steers the data graph generator.
 type GraphOpts struct {
 	NullProb int // percent of nullable positions that are null (default 12)
+	TypedNil int // percent of object positions holding a typed nil pointer
 	PerType  int // nodes per object type (default 1..3)
 }
 
@@ -88,6 +89,11 @@ func Graph(r *rand.Rand, s *model.Schema, o GraphOpts) *model.Graph {
 		}
 		if s.IsLeaf(t.Name) {
 			return LeafValue(r, s, t.Name)
+		}
+		if o.TypedNil > 0 && r.Intn(100) < o.TypedNil {
+			if td := s.Type(t.Name); td != nil && td.Kind == model.Object {
+				return model.TypedNil{Type: t.Name}
+			}
 		}
 		return pick(t.Name)
 	}
